@@ -40,6 +40,21 @@ fn main() {
             }
         }
     }
+    if args[0] == "c18-child" && args.len() == 2 {
+        // reads a C18 case from stdin, runs only the given session in this fresh process, prints its transcript
+        use std::io::Read;
+        let mut js = String::new();
+        let _ = std::io::stdin().read_to_string(&mut js);
+        let idx: usize = args[1].parse().unwrap_or(0);
+        match serde_json::from_str::<hpke_verif::props::c18::Case>(&js) {
+            Ok(case) if idx < case.scripts.len() => {
+                let t = hpke_verif::props::c18::single_session_transcript(&case, idx);
+                println!("{}", serde_json::to_string(&t).unwrap_or_default());
+                std::process::exit(0);
+            }
+            _ => std::process::exit(2),
+        }
+    }
     if args[0] == "fuzz-seeds" && args.len() == 3 {
         // hv fuzz-seeds <target> <dir>
         let dir = Path::new(&args[2]);
